@@ -25,6 +25,7 @@ void Relay::configure(const J &c)
 	shuffle = c.getb("shuffle"); reencode = c.getb("reencode"); idrewrite = c.getb("idrewrite");
 	ttl_rewrite = c.getb("ttl_rewrite");
 	ref_reencode = c.getb("ref_reencode");
+	nat = c.getb("nat");
 }
 
 std::string Relay::sig() const
@@ -32,7 +33,7 @@ std::string Relay::sig() const
 	std::string s = "cq=" + case_q + ",ca=" + case_a + ",hb=" + hibit + "/" + hibit_a + ",+=" + plus + "/" + plus_a + ",_=" + under + "/" + under_a + (text_a ? ",txt" : "") + ",ed=" + edns + ",max=" + std::to_string(maxans) + "/" + big + ",ref=";
 	for (int t : refuse) s += std::to_string(t) + "+";
 	s += refuse_mode;
-	if (shuffle) s += ",shuf"; if (reencode) s += ",reenc"; if (idrewrite) s += ",idrw"; if (ref_reencode) s += ",refenc";
+	if (shuffle) s += ",shuf"; if (reencode) s += ",reenc"; if (idrewrite) s += ",idrw"; if (ref_reencode) s += ",refenc"; if (nat) s += ",nat";
 	return s;
 }
 
@@ -121,6 +122,14 @@ bool Relay::filter_query(Dgram &d)
 		idmap[{d.src.str(), nid}] = oid;
 		if (idmap.size() > 4096) idmap.erase(idmap.begin());
 		b[0] = nid >> 8; b[1] = nid & 255;
+	}
+	if (nat) {
+		// the relay is a host of its own: what it forwards carries its address (one port per client socket); answers find their
+		// way back through the same mapping the altsrc re-deliveries use (the simulated path turns
+		// the destination back into the client's before the relay sees the answer, so the id map above is keyed by the client's address)
+		Addr orig = d.src; std::string os = orig.str(); uint64_t h = 1469598103934665603ull; for (char ch : os) h = (h ^ (uint8_t)ch) * 1099511628211ull;
+		Addr na = Addr::v4("10.9.7.53", (uint16_t)(20000 + h % 20000));
+		d.src = na; S->rd_altmap[na.str()] = orig; S->count("relay.nat");
 	}
 	return true;
 }
